@@ -62,6 +62,9 @@ def run(P, R, tier):
     _hist.check(P, R)
     from ..engines import traps as _traps
     _traps.check(P, R, ['factor_analysis', 'kmeans', 'wccn'], scope='(factor_analysis:(FactorAnalysisBase\\.(compute_latent_x|update_[yz]|compute_accumulators_[UVD]|_get_statistics_by_class_id|fit_using_array|initialize|create_UVD|_sum_[nf]_statistics)|check_dask_input_samples_per_class)|kmeans:KMeansMachine\\.(initialize|fit)|wccn:WCCN\\.fit)')
+    # a bag of statistics is regrouped per class by the label of each statistic, whatever the partitioning (C12's routing rules)
+    from .C12 import check_prepare as _cp16
+    _cp16(P, R)
 
 
 EXPLANATION += ' Also: (HIST) no module-level, class-level or default-argument container is mutated by any function of the package: nothing outlives a call that a later training could read.'
